@@ -77,6 +77,10 @@ def main():
         assert out.strip() == "", "/repo not clean: " + out
         rc, out = sh(["git", "-C", REPO, "apply", patch])
         assert rc == 0, out
+        saved = {}
+        for c in checks:   # evidence files must only ever hold clean-tree runs: keep and restore them
+            ep = os.path.join(VERIF, "evidence", c + ".json")
+            saved[ep] = open(ep).read() if os.path.exists(ep) else None
         try:
             for c in checks:
                 t0 = time.time()
@@ -86,6 +90,11 @@ def main():
         finally:
             sh(["git", "-C", REPO, "checkout", "--", "."])
             sh(["git", "-C", REPO, "clean", "-fdq"])
+            for ep, content in saved.items():
+                if content is not None:
+                    open(ep, "w").write(content)
+            # generated Coq files were regenerated from the patched tree: restore the committed ones
+            sh(["git", "-C", VERIF, "checkout", "--", "coq/Gen"])
     meta["checks"] = results
     meta["detected_by"] = [c for c, r in results.items() if r["exit"] != 0 and r["violations"]]
     d = os.path.join(VERIF, "seeded", "%s-%s%s" % (prop, tag, n))
